@@ -20,6 +20,46 @@
 //!     "keys exist but peer Finished withheld" window), and after a withheld flight is released
 //!     the handshake must still complete (witness is logical: marker behind the flight arrived /
 //!     flight delivered >=3 times, never a bare timeout).
+//!   * POSITIONS of the victim when the injection arrives:
+//!       established      both ends Connected;
+//!       window_client / window_server   keys exist, the peer's CCS+Finished are withheld;
+//!       pre_server@1 / @16              NO keys yet: the server has seen nothing / has answered
+//!                                       ClientHello, ClientKeyExchange withheld;
+//!       pre_client@2 / @11 / @12 / @14  NO keys yet: ClientHello is out, the server's flight is
+//!                                       withheld from ServerHello / Certificate /
+//!                                       ServerKeyExchange / ServerHelloDone on.
+//!     At the pre-key positions only records that can never be legitimate are injected: every
+//!     content type claiming a protected epoch (>= 1; nothing can authenticate without keys) and
+//!     epoch-0 ApplicationData / unknown types. Epoch-0 Handshake, ChangeCipherSpec and Alert
+//!     records before keys exist are by nature unauthenticated and legitimately acted on (the
+//!     statement starts "once keys are negotiated"), so they are not injected there. No marker
+//!     is possible without keys: the victim's IceConn receive counter shows that every injected
+//!     datagram was handed to the DTLS layer before the release; then the withheld flight is
+//!     released, the handshake must complete, and a marker behind everything shows that nothing
+//!     but genuine payloads ever came out (also not later, e.g. from a queue), with the state
+//!     Connected. A handshake that does not complete is judged only with a logical witness
+//!     (state Failed/Closed; receiver ended; the peer's flight delivered >= 3 more times).
+//!   * EFFECTS (violation key `rx=<class>,<effect>[,pos=handshake|prekey]`):
+//!       delivered           bytes without a genuine cause came out of the receiver;
+//!       state_changed       the state is not what it was before the injection;
+//!       handshake_derailed  (handshake positions) logical witness that it cannot complete;
+//!       receiver_closed     the application-data receiver ENDED (the task feeding the upper
+//!                           layer is gone) while the state still reads as before - the
+//!                           connection is dead although no state change is announced;
+//!       stopped_delivering  the marker is lost, the state unchanged, and: three further fresh
+//!                           genuine markers were submitted (send Ok), the wire wrote their
+//!                           datagrams to the victim's socket, the victim's IceConn counted
+//!                           them - none came out; AND a control rig of the same scenario
+//!                           without any injection delivers its markers and its authentic
+//!                           control record. Anything short of that stays inconclusive.
+//!     The last two are changes of connection state caused by an unauthenticated record.
+//!     Dropping an injected record is always fine; single lost genuine payloads are never
+//!     judged. Panics recorded by the process-wide hook are only a note in the witness.
+//!   * every batch anomaly is narrowed by bisection on fresh rigs to one injection (rebuilt
+//!     byte-identically: `inj_base`) and must reproduce there.
+//!   * exact body lengths 0..=64 (explicit nonce 8 B / tag 16 B boundaries) for every content
+//!     type and protected epoch, single, coalesced behind an empty record and behind an
+//!     *authentic* record (pack `after_authentic`), and interleaved with genuine traffic.
 //! SEND-SIDE ORACLE ("every application payload is transmitted encrypted, split into records no
 //! larger than the path limit, and no two records sent under one key reuse a sequence
 //! number/nonce, for any number of concurrent senders"):
@@ -161,6 +201,17 @@ fn ct_name(ct: u8) -> String {
     }
 }
 
+/// Body-length classes of a protected record: explicit nonce is 8 B, GCM tag 16 B, so a genuine
+/// body has >= 24 B (25 with one byte of plaintext).
+fn len_bucket(n: usize) -> &'static str {
+    match n {
+        0..=7 => "0to7",
+        8..=15 => "8to15",
+        16..=23 => "16to23",
+        _ => "24plus",
+    }
+}
+
 fn region_of_bit(bit: usize, rec_len: usize) -> &'static str {
     let b = bit / 8;
     match b {
@@ -250,6 +301,26 @@ enum WireCmd {
     Release(usize, oneshot::Sender<()>),
 }
 
+/// From which datagram on a direction is withheld (rustrtc sends one record per UDP datagram).
+#[derive(Clone, Copy, Debug)]
+enum HoldFrom {
+    /// the first ChangeCipherSpec datagram (final flight: CCS + Finished)
+    Ccs,
+    /// the first epoch-0 Handshake datagram whose handshake message type is the given one
+    /// (1 = ClientHello = everything the client says, 11 = Certificate, 16 = ClientKeyExchange,
+    ///  2 = ServerHello = everything the server says, 14 = ServerHelloDone)
+    Hs(u8),
+}
+
+impl HoldFrom {
+    fn hit(&self, d: &[u8]) -> bool {
+        match self {
+            HoldFrom::Ccs => d[0] == 20,
+            HoldFrom::Hs(t) => d.len() > 13 && d[0] == 22 && d[3] == 0 && d[4] == 0 && d[13] == *t,
+        }
+    }
+}
+
 struct Wire {
     socks: [Arc<UdpSocket>; 2], // socks[i] faces endpoint i (is endpoint i's configured remote)
     addrs: [SocketAddr; 2],
@@ -257,6 +328,11 @@ struct Wire {
     hold: [Arc<AtomicBool>; 2],
     held_n: [Arc<AtomicUsize>; 2],
     ccs_after_release: [Arc<AtomicUsize>; 2],
+    /// datagrams of direction d successfully written to the receiving endpoint's socket
+    fwd_ok: [Arc<AtomicUsize>; 2],
+    /// highest multiplicity of one byte-identical datagram forwarded in direction d after the
+    /// release (= how often the sender's current flight was retransmitted and delivered)
+    rexmit_after_release: [Arc<AtomicUsize>; 2],
     sentinel: [watch::Receiver<u64>; 2],
     cmd: mpsc::UnboundedSender<WireCmd>,
     task: JoinHandle<()>,
@@ -271,7 +347,7 @@ struct Endpoint {
     runner: Option<JoinHandle<()>>,
     pump: JoinHandle<()>,
     _sock_tx: watch::Sender<Option<IceSocketWrapper>>,
-    _conn: Arc<IceConn>,
+    conn: Arc<IceConn>,
 }
 
 struct Rig {
@@ -352,11 +428,13 @@ async fn make_endpoint(
         runner: Some(runner),
         pump,
         _sock_tx: sock_tx,
-        _conn: conn,
+        conn,
     })
 }
 
-fn spawn_wire(socks: [Arc<UdpSocket>; 2], ep_addrs: [SocketAddr; 2], hold_dir: Option<usize>) -> Result<Wire, String> {
+fn spawn_wire(socks: [Arc<UdpSocket>; 2], ep_addrs: [SocketAddr; 2], hold_spec: Option<(usize, HoldFrom)>) -> Result<Wire, String> {
+    let hold_dir = hold_spec.map(|h| h.0);
+    let hold_from = hold_spec.map(|h| h.1).unwrap_or(HoldFrom::Ccs);
     let addrs = [
         socks[0].local_addr().map_err(|e| e.to_string())?,
         socks[1].local_addr().map_err(|e| e.to_string())?,
@@ -368,6 +446,9 @@ fn spawn_wire(socks: [Arc<UdpSocket>; 2], ep_addrs: [SocketAddr; 2], hold_dir: O
     ];
     let held_n = [Arc::new(AtomicUsize::new(0)), Arc::new(AtomicUsize::new(0))];
     let ccs_after = [Arc::new(AtomicUsize::new(0)), Arc::new(AtomicUsize::new(0))];
+    let fwd_ok = [Arc::new(AtomicUsize::new(0)), Arc::new(AtomicUsize::new(0))];
+    let rexmit = [Arc::new(AtomicUsize::new(0)), Arc::new(AtomicUsize::new(0))];
+    let (tfwd, trex) = (fwd_ok.clone(), rexmit.clone());
     let (s0tx, s0rx) = watch::channel(0u64);
     let (s1tx, s1rx) = watch::channel(0u64);
     let (cmd_tx, mut cmd_rx) = mpsc::unbounded_channel::<WireCmd>();
@@ -379,6 +460,7 @@ fn spawn_wire(socks: [Arc<UdpSocket>; 2], ep_addrs: [SocketAddr; 2], hold_dir: O
         let mut holding = [false; 2];
         let mut released = [false; 2];
         let mut queue: [VecDeque<Vec<u8>>; 2] = [VecDeque::new(), VecDeque::new()];
+        let mut after: [HashMap<Vec<u8>, usize>; 2] = [HashMap::new(), HashMap::new()];
         loop {
             let (d, len, src) = tokio::select! {
                 biased;
@@ -389,7 +471,9 @@ fn spawn_wire(socks: [Arc<UdpSocket>; 2], ep_addrs: [SocketAddr; 2], hold_dir: O
                             holding[d] = false;
                             released[d] = true;
                             while let Some(p) = queue[d].pop_front() {
-                                let _ = tsocks[1 - d].send_to(&p, ep_addrs[1 - d]).await;
+                                if tsocks[1 - d].send_to(&p, ep_addrs[1 - d]).await.is_ok() {
+                                    tfwd[d].fetch_add(1, Ordering::SeqCst);
+                                }
                             }
                             let _ = ack.send(());
                             continue;
@@ -411,7 +495,7 @@ fn spawn_wire(socks: [Arc<UdpSocket>; 2], ep_addrs: [SocketAddr; 2], hold_dir: O
                 continue;
             }
             tlog.lock().push(Cap { dir: d, bytes: bytes.clone() });
-            if thold[d].load(Ordering::SeqCst) && (holding[d] || bytes[0] == 20) {
+            if thold[d].load(Ordering::SeqCst) && (holding[d] || hold_from.hit(&bytes)) {
                 holding[d] = true;
                 queue[d].push_back(bytes);
                 theld[d].fetch_add(1, Ordering::SeqCst);
@@ -420,7 +504,14 @@ fn spawn_wire(socks: [Arc<UdpSocket>; 2], ep_addrs: [SocketAddr; 2], hold_dir: O
             if released[d] && bytes[0] == 20 {
                 tccs[d].fetch_add(1, Ordering::SeqCst);
             }
-            let _ = tsocks[1 - d].send_to(&bytes, ep_addrs[1 - d]).await;
+            if tsocks[1 - d].send_to(&bytes, ep_addrs[1 - d]).await.is_ok() {
+                tfwd[d].fetch_add(1, Ordering::SeqCst);
+                if released[d] && after[d].len() < 4096 {
+                    let n = after[d].entry(bytes).or_insert(0);
+                    *n += 1;
+                    trex[d].fetch_max(*n, Ordering::SeqCst);
+                }
+            }
         }
     });
     Ok(Wire {
@@ -430,6 +521,8 @@ fn spawn_wire(socks: [Arc<UdpSocket>; 2], ep_addrs: [SocketAddr; 2], hold_dir: O
         hold,
         held_n,
         ccs_after_release: ccs_after,
+        fwd_ok,
+        rexmit_after_release: rexmit,
         sentinel: [s0rx, s1rx],
         cmd: cmd_tx,
         task,
@@ -437,14 +530,14 @@ fn spawn_wire(socks: [Arc<UdpSocket>; 2], ep_addrs: [SocketAddr; 2], hold_dir: O
 }
 
 impl Rig {
-    /// `hold_dir`: Some(d) = withhold direction d from its first ChangeCipherSpec datagram on.
-    async fn build(certs: &Certs, hold_dir: Option<usize>) -> Result<Rig, String> {
+    /// `hold`: Some((d, from)) = withhold direction d from the first datagram matching `from` on.
+    async fn build(certs: &Certs, hold: Option<(usize, HoldFrom)>) -> Result<Rig, String> {
         let (cs, ss, w0, w1, st) = (bind().await?, bind().await?, bind().await?, bind().await?, bind().await?);
         let ep_addrs = [
             cs.local_addr().map_err(|e| e.to_string())?,
             ss.local_addr().map_err(|e| e.to_string())?,
         ];
-        let wire = spawn_wire([w0, w1], ep_addrs, hold_dir)?;
+        let wire = spawn_wire([w0, w1], ep_addrs, hold)?;
         let server = make_endpoint(ss, wire.addrs[1], certs.s.clone(), false, certs.fp_c.clone()).await?;
         let client = make_endpoint(cs, wire.addrs[0], certs.c.clone(), true, certs.fp_s.clone()).await?;
         Ok(Rig {
@@ -570,6 +663,9 @@ struct BuiltInj {
     class: String,
     /// plaintext that may legitimately be delivered because of this injection (replay only)
     allowed: Option<Vec<u8>>,
+    /// plaintext of the harness-sealed *authentic* record that precedes the injected record in
+    /// the same datagram (pack "after_authentic"); its delivery is allowed, not demanded
+    carrier: Option<Vec<u8>>,
 }
 
 fn craft_payload(kind: &str, rng: &mut Rng) -> Vec<u8> {
@@ -632,8 +728,30 @@ fn coalesce_prefix() -> Vec<u8> {
 fn build_inj(inj: &Value, cx: &InjCtx, rng: &mut Rng) -> Result<BuiltInj, String> {
     let t = inj["t"].as_str().unwrap_or("");
     let pack = inj["pack"].as_str().unwrap_or("single");
+    // pack "after_authentic": the unauthenticated record rides behind a record that DOES
+    // authenticate (sealed by the harness under the peer's write key, fresh sequence number)
+    let carrier: Option<(Vec<u8>, Vec<u8>)> = if pack == "after_authentic" {
+        let keys = cx.keys.ok_or("after_authentic needs keys")?;
+        let (pk, piv) = peer_write(keys, cx.victim);
+        let mut pt = b"C03-CARR".to_vec();
+        pt.extend_from_slice(&rng.bytes(16));
+        let seq = (1u64 << 42) + rng.below(1 << 30);
+        Some((seal(&pk, &piv, 23, 1, seq, &pt, 0), pt))
+    } else {
+        None
+    };
+    let mut b = build_inj_core(inj, cx, rng, t, pack, carrier.as_ref().map(|c| c.0.as_slice()))?;
+    b.carrier = carrier.map(|c| c.1);
+    Ok(b)
+}
+
+fn build_inj_core(inj: &Value, cx: &InjCtx, rng: &mut Rng, t: &str, pack: &str, carrier: Option<&[u8]>) -> Result<BuiltInj, String> {
     let wrap = |rec: Vec<u8>| -> Vec<u8> {
-        if pack == "coalesced" {
+        if let Some(c) = carrier {
+            let mut d = c.to_vec();
+            d.extend_from_slice(&rec);
+            d
+        } else if pack == "coalesced" {
             let mut d = coalesce_prefix();
             d.extend_from_slice(&rec);
             d
@@ -666,7 +784,7 @@ fn build_inj(inj: &Value, cx: &InjCtx, rng: &mut Rng) -> Result<BuiltInj, String
             } else {
                 format!("forged_{}_epoch{}", ct_name(ctype), epoch)
             };
-            Ok(BuiltInj { datagram: wrap(enc_record(ctype, epoch, seq, &body)), class, allowed: None })
+            Ok(BuiltInj { datagram: wrap(enc_record(ctype, epoch, seq, &body)), class, allowed: None, carrier: None })
         }
         "hs" => {
             let msg = inj["msg"].as_str().unwrap_or("finished");
@@ -680,7 +798,24 @@ fn build_inj(inj: &Value, cx: &InjCtx, rng: &mut Rng) -> Result<BuiltInj, String
             } else {
                 format!("forged_handshake_epoch{epoch}({msg})")
             };
-            Ok(BuiltInj { datagram: wrap(enc_record(22, epoch, seq, &m)), class, allowed: None })
+            Ok(BuiltInj { datagram: wrap(enc_record(22, epoch, seq, &m)), class, allowed: None, carrier: None })
+        }
+        "len" => {
+            // exact body length (nonce / tag boundaries): the length field is consistent, the
+            // body is `blen` bytes; "gcm_like" starts with the explicit nonce a genuine record of
+            // that (epoch, seq) would carry (cut short if blen < 8)
+            let ctype = inj["ctype"].as_u64().unwrap_or(23) as u8;
+            let epoch = inj["epoch"].as_u64().unwrap_or(1) as u16;
+            let seq = inj["seq"].as_u64().unwrap_or(0);
+            let blen = inj["blen"].as_u64().unwrap_or(0) as usize;
+            let mut body = rng.bytes(blen);
+            if inj["form"].as_str() == Some("gcm_like") {
+                let full = ((epoch as u64) << 48) | (seq & 0xFFFF_FFFF_FFFF);
+                let n = blen.min(8);
+                body[..n].copy_from_slice(&full.to_be_bytes()[..n]);
+            }
+            let class = format!("forged_{}_epoch{}_body{}", ct_name(ctype), epoch, len_bucket(blen));
+            Ok(BuiltInj { datagram: wrap(enc_record(ctype, epoch, seq, &body)), class, allowed: None, carrier: None })
         }
         "flip" => {
             let (r, _) = gen_rec("rec", cx.genuine)?;
@@ -690,7 +825,7 @@ fn build_inj(inj: &Value, cx: &InjCtx, rng: &mut Rng) -> Result<BuiltInj, String
                 return Err("bit out of range".into());
             }
             d[bit / 8] ^= 0x80 >> (bit % 8);
-            Ok(BuiltInj { class: format!("bitflip_{}", region_of_bit(bit, d.len())), datagram: wrap(d), allowed: None })
+            Ok(BuiltInj { class: format!("bitflip_{}", region_of_bit(bit, d.len())), datagram: wrap(d), allowed: None, carrier: None })
         }
         "trunc" => {
             let (r, _) = gen_rec("rec", cx.genuine)?;
@@ -705,6 +840,7 @@ fn build_inj(inj: &Value, cx: &InjCtx, rng: &mut Rng) -> Result<BuiltInj, String
                 class: if fix { "truncated_len_fixed".into() } else { "truncated".into() },
                 datagram: wrap(d),
                 allowed: None,
+                carrier: None,
             })
         }
         "rekey" => {
@@ -720,15 +856,15 @@ fn build_inj(inj: &Value, cx: &InjCtx, rng: &mut Rng) -> Result<BuiltInj, String
                 "fresh_seq_random_key" => seal(&rng.bytes(16), &piv, r.ctype, r.epoch, (1 << 41) + r.seq, &pt, 0),
                 _ => seal(&rng.bytes(16), &piv, r.ctype, r.epoch, r.seq, &pt, 0),
             };
-            Ok(BuiltInj { class: format!("wrong_key({mode})"), datagram: wrap(d), allowed: None })
+            Ok(BuiltInj { class: format!("wrong_key({mode})"), datagram: wrap(d), allowed: None, carrier: None })
         }
         "replay" => {
             let (r, pt) = gen_rec("rec", cx.genuine)?;
-            Ok(BuiltInj { class: "replay".into(), datagram: wrap(r.raw), allowed: Some(pt) })
+            Ok(BuiltInj { class: "replay".into(), datagram: wrap(r.raw), allowed: Some(pt), carrier: None })
         }
         "reflect" => {
             let (r, _) = gen_rec("rec", cx.from_victim)?;
-            Ok(BuiltInj { class: "reflected".into(), datagram: wrap(r.raw), allowed: None })
+            Ok(BuiltInj { class: "reflected".into(), datagram: wrap(r.raw), allowed: None, carrier: None })
         }
         other => Err(format!("unknown injection type {other}")),
     }
@@ -738,7 +874,7 @@ fn build_inj(inj: &Value, cx: &InjCtx, rng: &mut Rng) -> Result<BuiltInj, String
 struct Anomaly {
     lo: usize,
     hi: usize,
-    effect: String, // delivered | state_changed | handshake_derailed
+    effect: String, // delivered | state_changed | handshake_derailed | receiver_closed | stopped_delivering
     detail: Value,
 }
 
@@ -823,6 +959,123 @@ async fn run_rx(scn: &Value, certs: &Certs) -> RxOut {
     out
 }
 
+/// Panics recorded process-wide so far (rustrtc tasks included; tokio swallows task panics). They
+/// are only a *note* in witnesses – the verdict always comes from an observable effect.
+static PANICS_SEEN: parking_lot::Mutex<Vec<PanicRecord>> = parking_lot::Mutex::new(Vec::new());
+
+fn panics_so_far() -> Vec<PanicRecord> {
+    let mut g = PANICS_SEEN.lock();
+    g.extend(take_panics());
+    g.clone()
+}
+
+fn panic_notes() -> Vec<String> {
+    let mut seen: Vec<String> = vec![];
+    for p in panics_so_far() {
+        let s = format!("{}: {}", norm_location(&p.location), p.message);
+        if !seen.contains(&s) {
+            seen.push(s);
+        }
+        if seen.len() >= 3 {
+            break;
+        }
+    }
+    seen
+}
+
+fn runner_finished(rig: &Rig, i: usize) -> bool {
+    rig.ep[i].runner.as_ref().map(|r| r.is_finished()).unwrap_or(true)
+}
+
+/// The victim's application-data receiver ended (its sender half was dropped: the task that
+/// feeds the upper layer is gone). If the state still reads what it read before the injection
+/// this is reported as its own effect; a Closed/Failed state is reported as `state_changed`.
+fn closed_anomaly(rig: &Rig, vi: usize, lo: usize, hi: usize, expected_state: &str, wher: &str) -> Option<Anomaly> {
+    let st = state_name(&rig.ep[vi].dtls.get_state());
+    if st != expected_state {
+        return None;
+    }
+    Some(Anomaly {
+        lo,
+        hi,
+        effect: "receiver_closed".into(),
+        detail: json!({"victim_state_still": st, "observed_at": wher, "runner_task_finished": runner_finished(rig, vi),
+                       "panics_recorded_process_wide(note)": panic_notes()}),
+    })
+}
+
+/// Logical witness for "the victim stopped delivering genuine authenticated records" (used when a
+/// barrier marker is lost although the victim's state is unchanged). Three fresh genuine markers
+/// are submitted (each `send` must return Ok), the wire must have written their datagrams to the
+/// victim's socket, the victim's IceConn receive counter must have moved by them (so they were
+/// handed to the DTLS layer) – and none may come out of the application-data receiver.
+///   Ok(Some(detail)) witness established;  Ok(None) a marker did come out (alive, just slow);
+///   Err(..) the witness could not be built (inconclusive).
+async fn stopped_witness(
+    rig: &mut Rig,
+    pi: usize,
+    vi: usize,
+    ctr: &mut u64,
+    allowed: &mut HashMap<Vec<u8>, usize>,
+) -> Result<Option<Value>, String> {
+    const N: usize = 3;
+    rig.flush(pi).await?;
+    let c0 = rig.wire.fwd_ok[pi].load(Ordering::SeqCst);
+    let r0 = rig.ep[vi].conn.rx_packets.load(Ordering::Relaxed);
+    let sender = rig.ep[pi].dtls.clone();
+    for _ in 0..N {
+        *ctr += 1;
+        let mut m = b"C03-MARK".to_vec();
+        m.extend_from_slice(&ctr.to_be_bytes());
+        m.extend_from_slice(&[0x5A; 8]);
+        *allowed.entry(m.clone()).or_insert(0) += 1;
+        sender.send(Bytes::from(m)).await.map_err(|e| format!("genuine sender cannot send marker: {e}"))?;
+    }
+    rig.flush(pi).await?;
+    let fwd = rig.wire.fwd_ok[pi].load(Ordering::SeqCst).saturating_sub(c0);
+    if fwd < N {
+        return Err(format!("only {fwd} of {N} witness markers were forwarded by the wire"));
+    }
+    let dl = tokio::time::Instant::now() + Duration::from_secs(4);
+    loop {
+        let got = rig.ep[vi].conn.rx_packets.load(Ordering::Relaxed).saturating_sub(r0);
+        if got >= N as u64 {
+            break;
+        }
+        if tokio::time::Instant::now() > dl {
+            return Err(format!("only {got} of {N} witness marker datagrams reached the victim's IceConn (lost before rustrtc)"));
+        }
+        tokio::time::sleep(Duration::from_millis(5)).await;
+    }
+    let rx_delta = rig.ep[vi].conn.rx_packets.load(Ordering::Relaxed).saturating_sub(r0);
+    let dl = tokio::time::Instant::now() + Duration::from_secs(3);
+    let mut other = 0usize;
+    loop {
+        match tokio::time::timeout_at(dl, rig.ep[vi].rx.recv()).await {
+            Ok(Some(b)) => {
+                if b.starts_with(b"C03-MARK") {
+                    return Ok(None);
+                }
+                other += 1;
+            }
+            Ok(None) => {
+                return Ok(Some(json!({"receiver_closed": true})));
+            }
+            Err(_) => break,
+        }
+    }
+    Ok(Some(json!({
+        "fresh_genuine_markers_submitted_ok": N,
+        "marker_datagrams_written_to_victim_socket": fwd,
+        "victim_iceconn_rx_packets_delta": rx_delta,
+        "markers_delivered_to_upper_layer": 0,
+        "other_items_delivered_meanwhile": other,
+        "victim_state_still": state_name(&rig.ep[vi].dtls.get_state()),
+        "runner_task_finished": runner_finished(rig, vi),
+        "panics_recorded_process_wide(note)": panic_notes(),
+    })))
+}
+
 async fn run_rx_inner(scn: &Value, certs: &Certs, out: &mut RxOut) -> Result<(), String> {
     let vi = if scn["victim"].as_str() == Some("server") { 1usize } else { 0 };
     let pi = 1 - vi;
@@ -830,6 +1083,7 @@ async fn run_rx_inner(scn: &Value, certs: &Certs, out: &mut RxOut) -> Result<(),
     let source = scn["source"].as_str().unwrap_or("peer").to_string();
     let seed = scn["seed"].as_u64().unwrap_or(1);
     let every = scn["barrier_every"].as_u64().unwrap_or(1).max(1) as usize;
+    let interleave = scn["interleave"].as_bool().unwrap_or(false);
     let injs: Vec<Value> = scn["inj"].as_array().cloned().unwrap_or_default();
     let sizes = |k: &str| -> Vec<usize> {
         scn[k].as_array().map(|a| a.iter().filter_map(|x| x.as_u64()).map(|x| x as usize).collect()).unwrap_or_default()
@@ -844,17 +1098,31 @@ async fn run_rx_inner(scn: &Value, certs: &Certs, out: &mut RxOut) -> Result<(),
     let base = Rng::new(seed);
     let mut rng = base.fork(99);
 
-    if (position == "window_client" && vi != 0) || (position == "window_server" && vi != 1) {
+    let established = position == "established";
+    let prekey = position == "pre_server" || position == "pre_client";
+    let hold_from = scn["hold_from"].as_u64().unwrap_or(if position == "pre_client" { 2 } else { 1 }) as u8;
+    if ((position == "window_client" || position == "pre_client") && vi != 0)
+        || ((position == "window_server" || position == "pre_server") && vi != 1)
+    {
         return Err("position/victim mismatch".into());
     }
     // window_client: the server's CCS+Finished are withheld -> the client owns keys, is Handshaking.
     // window_server: the client's CCS+Finished are withheld (its ClientKeyExchange was delivered
     //                before) -> the server owns keys, is Handshaking; the harness has no keys.
+    // pre_server@t : everything the client sends from its first handshake message of type t on is
+    //                withheld (1: the server has seen nothing; 16: it answered ClientHello with its
+    //                ServerHello flight, ClientKeyExchange not delivered) -> NO keys yet.
+    // pre_client@t : everything the server sends from its handshake message of type t on is
+    //                withheld (2: ClientHello out, nothing received; 11: ServerHello received;
+    //                12: + Certificate; 14: everything but ServerHelloDone received) -> NO keys yet.
     let hold = match position.as_str() {
-        "window_client" => Some(1),
-        "window_server" => Some(0),
+        "window_client" => Some((1usize, HoldFrom::Ccs)),
+        "window_server" => Some((0, HoldFrom::Ccs)),
+        "pre_server" => Some((0, HoldFrom::Hs(hold_from))),
+        "pre_client" => Some((1, HoldFrom::Hs(hold_from))),
         _ => None,
     };
+    let pos_label = if prekey { format!("{position}@{hold_from}") } else { position.clone() };
     let mut rig = Rig::build(certs, hold).await?;
     let wd = Duration::from_secs(12);
     let keys: Option<SessionKeys> = match position.as_str() {
@@ -865,29 +1133,42 @@ async fn run_rx_inner(scn: &Value, certs: &Certs, out: &mut RxOut) -> Result<(),
         }
         "window_client" => Some(rig.wait_connected(1, wd).await?),
         _ => {
+            // the datagram that starts the withheld part has reached the wire: everything before
+            // it was forwarded, the victim's peer now only retransmits into the hold queue
+            let d = hold.map(|h| h.0).unwrap_or(0);
             let dl = tokio::time::Instant::now() + wd;
-            while rig.wire.held_n[0].load(Ordering::SeqCst) == 0 {
+            while rig.wire.held_n[d].load(Ordering::SeqCst) == 0 {
                 if tokio::time::Instant::now() > dl {
-                    return Err("client CCS never reached the wire (watchdog)".into());
+                    return Err(format!("the datagram to withhold ({pos_label}) never reached the wire (watchdog)"));
                 }
                 tokio::time::sleep(Duration::from_millis(2)).await;
             }
             None
         }
     };
-    let expected_state = if position == "established" { "Connected" } else { "Handshaking" };
-    let st0 = state_name(&rig.ep[vi].dtls.get_state());
-    if st0 != expected_state {
-        return Err(format!("victim is {st0} before any injection (expected {expected_state})"));
+    let expected_state = if established { "Connected" } else { "Handshaking" };
+    {
+        // (a server whose runner task has not started yet still reads New)
+        let dl = tokio::time::Instant::now() + Duration::from_secs(3);
+        loop {
+            let st0 = state_name(&rig.ep[vi].dtls.get_state());
+            if st0 == expected_state {
+                break;
+            }
+            if st0 != "New" || tokio::time::Instant::now() > dl {
+                return Err(format!("victim is {st0} before any injection (expected {expected_state})"));
+            }
+            tokio::time::sleep(Duration::from_millis(2)).await;
+        }
     }
-    out.obs.seen("positions", position.clone());
+    out.obs.seen("positions", pos_label.clone());
 
     let mut allowed: HashMap<Vec<u8>, usize> = HashMap::new();
     let mut mctr: u64 = 0;
-    let can_barrier = position != "window_server";
+    let can_barrier = established || position == "window_client";
     let sender = rig.ep[pi].dtls.clone();
     let vsender = rig.ep[vi].dtls.clone();
-    let b_try = Duration::from_millis(if position == "established" { 1500 } else { 500 });
+    let b_try = Duration::from_millis(if established { 1500 } else { 500 });
 
     // ---- genuine traffic that will be captured and mutated
     let mut genuine: Vec<(Rec, Vec<u8>)> = vec![];
@@ -904,7 +1185,7 @@ async fn run_rx_inner(scn: &Value, certs: &Certs, out: &mut RxOut) -> Result<(),
             *allowed.entry(p.clone()).or_insert(0) += 1;
             sender.send(Bytes::from(p.clone())).await.map_err(|e| format!("genuine send: {e}"))?;
         }
-        if position == "established" {
+        if established {
             for (n, sz) in victim_sizes.iter().enumerate() {
                 let p = base.fork(2000 + n as u64).bytes(*sz);
                 vsender.send(Bytes::from(p)).await.map_err(|e| format!("victim send: {e}"))?;
@@ -952,61 +1233,114 @@ async fn run_rx_inner(scn: &Value, certs: &Certs, out: &mut RxOut) -> Result<(),
     let src_sock = if source == "stranger" { rig.stranger.clone() } else { rig.wire.socks[vi].clone() };
     let vaddr = rig.ep[vi].addr;
     let mut built: Vec<BuiltInj> = vec![];
+    // `inj_base`: index of inj[0] in the scenario this one was narrowed from, so that a narrowed
+    // scenario rebuilds byte-identical injections (random bodies / lengths are forked per index)
+    let inj_base = scn["inj_base"].as_u64().unwrap_or(0);
     for (n, inj) in injs.iter().enumerate() {
-        let mut r = rng.fork(n as u64);
+        let mut r = rng.fork(inj_base + n as u64);
         built.push(build_inj(inj, &cx, &mut r)?);
     }
     out.classes = built.iter().map(|b| b.class.clone()).collect();
     out.datagrams = built.iter().map(|b| b.datagram.clone()).collect();
 
     let mut dead = false;
+    let mut all_reached = true;
     let mut lo = 0usize;
     while lo < built.len() && !dead {
         let hi = (lo + every).min(built.len());
-        for b in &built[lo..hi] {
+        let rx0 = rig.ep[vi].conn.rx_packets.load(Ordering::Relaxed);
+        let mut n_sent = 0u64;
+        for (bi, b) in built[lo..hi].iter().enumerate() {
             if let Some(p) = &b.allowed {
+                *allowed.entry(p.clone()).or_insert(0) += 1;
+            }
+            if let Some(p) = &b.carrier {
                 *allowed.entry(p.clone()).or_insert(0) += 1;
             }
             if b.datagram.is_empty() {
                 continue; // a zero-length UDP datagram carries nothing to judge
             }
             src_sock.send_to(&b.datagram, vaddr).await.map_err(|e| format!("inject: {e}"))?;
+            n_sent += 1;
             out.obs.count("injected_datagrams", 1);
             out.obs.seen("classes_injected", format!("{}@{}/{}", b.class, position, source));
+            if interleave && established {
+                // genuine traffic between the injections (its delivery is allowed, not demanded:
+                // UDP may drop; a transport that stops delivering is caught at the barrier)
+                let p = base.fork(3000 + (lo + bi) as u64).bytes(1 + (lo + bi) * 37 % 300);
+                *allowed.entry(p.clone()).or_insert(0) += 1;
+                sender.send(Bytes::from(p)).await.map_err(|e| format!("interleaved genuine send: {e}"))?;
+                out.obs.count("genuine_payloads_interleaved", 1);
+            }
         }
         // barrier + state sample
         let mut delivered_extra: Vec<Vec<u8>> = vec![];
+        let mut closed = false;
         if can_barrier {
-            match barrier(&sender, &mut rig.ep[vi].rx, &mut mctr, &mut allowed, if position == "established" { 4 } else { 1 }, b_try).await {
+            match barrier(&sender, &mut rig.ep[vi].rx, &mut mctr, &mut allowed, if established { 4 } else { 1 }, b_try).await {
                 Ok(r) => {
                     out.obs.count("barriers", 1);
                     delivered_extra = extras(&r.items, &mut allowed);
-                    if r.closed {
-                        dead = true;
-                    }
+                    closed = r.closed;
                 }
                 Err(e) => {
-                    if position == "established" {
-                        // marker lost although the peer is genuine: look at the state before giving up
+                    if established {
+                        // marker lost although the peer is genuine: look at the state, then try
+                        // to build a logical witness before giving up
                         let st = state_name(&rig.ep[vi].dtls.get_state());
                         if st == expected_state {
-                            return Err(e);
+                            match stopped_witness(&mut rig, pi, vi, &mut mctr, &mut allowed).await {
+                                Ok(Some(detail)) if detail["receiver_closed"] == json!(true) => closed = true,
+                                Ok(Some(detail)) => {
+                                    out.anomalies.push(Anomaly { lo, hi, effect: "stopped_delivering".into(), detail });
+                                }
+                                Ok(None) => return Err(format!("{e} (a later marker was delivered: slow, not stopped)")),
+                                Err(e2) => return Err(format!("{e}; no witness: {e2}")),
+                            }
                         }
                         dead = true;
                     } else {
                         // best effort only (a client may legitimately refuse data before Finished)
                         tokio::time::sleep(Duration::from_millis(50)).await;
-                        while let Ok(b) = rig.ep[vi].rx.try_recv() {
-                            delivered_extra.push(b.to_vec());
+                        loop {
+                            match rig.ep[vi].rx.try_recv() {
+                                Ok(b) => delivered_extra.push(b.to_vec()),
+                                Err(mpsc::error::TryRecvError::Empty) => break,
+                                Err(mpsc::error::TryRecvError::Disconnected) => {
+                                    closed = true;
+                                    break;
+                                }
+                            }
                         }
                         delivered_extra = extras(&delivered_extra, &mut allowed);
                     }
                 }
             }
         } else {
-            tokio::time::sleep(Duration::from_millis(40)).await;
-            while let Ok(b) = rig.ep[vi].rx.try_recv() {
-                delivered_extra.push(b.to_vec());
+            // No keys at the harness (window_server) or at nobody (pre-key): no marker possible.
+            // The withheld direction is the victim's only genuine source of datagrams, so its
+            // IceConn receive counter moves by exactly the injected datagrams: wait until all of
+            // them were handed to the DTLS layer, give the DTLS task a moment, then sample. What
+            // the victim does with them later is caught by the marker after the release (same
+            // FIFO path).
+            let want = rx0 + n_sent;
+            let dl = tokio::time::Instant::now() + Duration::from_secs(3);
+            while rig.ep[vi].conn.rx_packets.load(Ordering::Relaxed) < want && tokio::time::Instant::now() < dl {
+                tokio::time::sleep(Duration::from_millis(2)).await;
+            }
+            if rig.ep[vi].conn.rx_packets.load(Ordering::Relaxed) < want {
+                all_reached = false;
+            }
+            tokio::time::sleep(Duration::from_millis(20)).await;
+            loop {
+                match rig.ep[vi].rx.try_recv() {
+                    Ok(b) => delivered_extra.push(b.to_vec()),
+                    Err(mpsc::error::TryRecvError::Empty) => break,
+                    Err(mpsc::error::TryRecvError::Disconnected) => {
+                        closed = true;
+                        break;
+                    }
+                }
             }
         }
         out.obs.count("state_samples", 1);
@@ -1018,6 +1352,12 @@ async fn run_rx_inner(scn: &Value, certs: &Certs, out: &mut RxOut) -> Result<(),
                 detail: json!({"delivered": delivered_extra.iter().take(3).map(|d| hex_cap(d, 48)).collect::<Vec<_>>(), "n": delivered_extra.len()}),
             });
         }
+        if closed {
+            if let Some(a) = closed_anomaly(&rig, vi, lo, hi, expected_state, "after the injection batch") {
+                out.anomalies.push(a);
+            }
+            dead = true;
+        }
         let st = state_name(&rig.ep[vi].dtls.get_state());
         let wst = state_name(&rig.ep[vi].state_rx.borrow().clone());
         out.obs.seen("victim_states_sampled", st);
@@ -1026,7 +1366,7 @@ async fn run_rx_inner(scn: &Value, certs: &Certs, out: &mut RxOut) -> Result<(),
                 lo,
                 hi,
                 effect: "state_changed".into(),
-                detail: json!({"from": expected_state, "to": if st != expected_state { st } else { wst }}),
+                detail: json!({"from": expected_state, "to": if st != expected_state { st } else { wst }, "receiver_closed": closed}),
             });
             dead = true;
         }
@@ -1035,7 +1375,7 @@ async fn run_rx_inner(scn: &Value, certs: &Certs, out: &mut RxOut) -> Result<(),
 
     // ---- positive control: an *authentic* record from the same source must get through, which
     //      shows that this source's datagrams do reach the record layer (non-vacuity).
-    if !dead && keys.is_some() && position == "established" {
+    if !dead && keys.is_some() && established {
         let k = keys.as_ref().unwrap();
         let (pk, piv) = peer_write(k, vi);
         let mut ctl = b"C03-CTRL".to_vec();
@@ -1048,6 +1388,11 @@ async fn run_rx_inner(scn: &Value, certs: &Certs, out: &mut RxOut) -> Result<(),
         let ex = extras(&r.items, &mut allowed);
         if !ex.is_empty() {
             out.anomalies.push(Anomaly { lo: 0, hi: built.len(), effect: "delivered".into(), detail: json!({"late": true, "delivered": ex.iter().take(3).map(|d| hex_cap(d, 48)).collect::<Vec<_>>()}) });
+        }
+        if r.closed {
+            if let Some(a) = closed_anomaly(&rig, vi, 0, built.len(), expected_state, "at the closing control barrier") {
+                out.anomalies.push(a);
+            }
         }
         out.obs.count(if got { "control_authentic_record_delivered" } else { "control_authentic_record_not_delivered" }, 1);
         out.effective = got;
@@ -1063,28 +1408,67 @@ async fn run_rx_inner(scn: &Value, certs: &Certs, out: &mut RxOut) -> Result<(),
         if accepted > 0 {
             out.obs.count("replayed_genuine_record_delivered_again(observation)", accepted);
         }
+        let carried = built.iter().filter(|b| b.carrier.as_ref().map(|p| allowed.get(p).copied().unwrap_or(0) == 0).unwrap_or(false)).count();
+        if carried > 0 {
+            out.obs.count("authentic_carrier_record_delivered(injection rode behind it)", carried as u64);
+        }
     }
 
-    // ---- window positions: release the withheld flight; the handshake must still complete
-    if position != "established" && !dead {
-        let d = hold.unwrap_or(0);
+    // ---- handshake positions: release the withheld flight; the handshake must still complete
+    if !established && !dead {
+        let d = hold.map(|h| h.0).unwrap_or(0);
         rig.release(d).await?;
         let (first, second) = if position == "window_client" { (0usize, 1usize) } else { (1, 0) };
-        let r1 = rig.wait_connected(first, Duration::from_secs(6)).await;
-        let r2 = if r1.is_ok() { rig.wait_connected(second, Duration::from_secs(6)).await } else { r1.clone() };
+        let r1 = rig.wait_connected(first, Duration::from_secs(if prekey { 10 } else { 6 })).await;
+        let r2 = if r1.is_ok() { rig.wait_connected(second, Duration::from_secs(if prekey { 10 } else { 6 })).await } else { r1.clone() };
         if r1.is_ok() && r2.is_ok() {
-            // final marker: nothing but genuine data may come out
+            // final marker: nothing but genuine data may come out (it travels behind everything
+            // that was injected, so records the victim queued and acted on later show up here)
             let r = barrier(&sender, &mut rig.ep[vi].rx, &mut mctr, &mut allowed, 4, Duration::from_millis(1500)).await?;
             let ex = extras(&r.items, &mut allowed);
             if !ex.is_empty() {
-                out.anomalies.push(Anomaly { lo: 0, hi: built.len(), effect: "delivered".into(), detail: json!({"delivered": ex.iter().take(3).map(|d| hex_cap(d, 48)).collect::<Vec<_>>(), "n": ex.len()}) });
+                out.anomalies.push(Anomaly { lo: 0, hi: built.len(), effect: "delivered".into(), detail: json!({"after_handshake_completed": true, "delivered": ex.iter().take(3).map(|d| hex_cap(d, 48)).collect::<Vec<_>>(), "n": ex.len()}) });
             }
-            out.effective = !built.is_empty();
-            out.obs.count("window_handshake_completed_after_release", 1);
+            if r.closed {
+                if let Some(a) = closed_anomaly(&rig, vi, 0, built.len(), "Connected", "after the handshake completed") {
+                    out.anomalies.push(a);
+                }
+            }
+            // the marker travelled behind everything: the victim must (still) be Connected
+            let st = state_name(&rig.ep[vi].dtls.get_state());
+            if st != "Connected" {
+                out.anomalies.push(Anomaly { lo: 0, hi: built.len(), effect: "state_changed".into(), detail: json!({"from": "Connected (handshake completed after release)", "to": st}) });
+            }
+            out.effective = !built.is_empty() && all_reached;
+            out.obs.count(if prekey { "prekey_handshake_completed_after_release" } else { "window_handshake_completed_after_release" }, 1);
+            if prekey && all_reached {
+                out.obs.count("prekey_injections_counted_by_victim_iceconn_before_release", built.len() as u64);
+            }
         } else {
+            // what came out of the receiver meanwhile / whether it ended
+            let mut late: Vec<Vec<u8>> = vec![];
+            let mut rx_closed = false;
+            loop {
+                match rig.ep[vi].rx.try_recv() {
+                    Ok(b) => late.push(b.to_vec()),
+                    Err(mpsc::error::TryRecvError::Empty) => break,
+                    Err(mpsc::error::TryRecvError::Disconnected) => {
+                        rx_closed = true;
+                        break;
+                    }
+                }
+            }
+            let late = extras(&late, &mut allowed);
+            if !late.is_empty() {
+                out.anomalies.push(Anomaly { lo: 0, hi: built.len(), effect: "delivered".into(), detail: json!({"after_release": true, "delivered": late.iter().take(3).map(|d| hex_cap(d, 48)).collect::<Vec<_>>(), "n": late.len()}) });
+            }
             let st = state_name(&rig.ep[vi].dtls.get_state());
             if st == "Failed" || st == "Closed" {
                 out.anomalies.push(Anomaly { lo: 0, hi: built.len(), effect: "state_changed".into(), detail: json!({"from": "Handshaking", "to": st, "after_release": true}) });
+            } else if rx_closed && st == "Handshaking" {
+                if let Some(a) = closed_anomaly(&rig, vi, 0, built.len(), "Handshaking", "after the release (handshake did not complete)") {
+                    out.anomalies.push(a);
+                }
             } else if position == "window_client" {
                 // logical witness: a marker submitted by the (Connected) server *behind* its final
                 // flight came out of the client, so the client has processed that flight – and is
@@ -1095,20 +1479,25 @@ async fn run_rx_inner(scn: &Value, certs: &Certs, out: &mut RxOut) -> Result<(),
                     Err(e) => return Err(format!("handshake incomplete after release, no witness: {e}")),
                 }
             } else {
-                // retry witness (DESIGN §2.3): the client's flight reached the server >= 3 more times
-                let dl = tokio::time::Instant::now() + Duration::from_secs(5);
-                while rig.wire.ccs_after_release[0].load(Ordering::SeqCst) < 3 && tokio::time::Instant::now() < dl {
+                // retry witness (DESIGN §2.3): after the release the sender's current flight
+                // reached the victim's socket >= 3 more times (window_server: the client's CCS;
+                // pre-key: any byte-identical datagram of the withheld direction)
+                let ctr = if prekey { &rig.wire.rexmit_after_release[d] } else { &rig.wire.ccs_after_release[0] };
+                let dl = tokio::time::Instant::now() + Duration::from_secs(if prekey { 8 } else { 5 });
+                while ctr.load(Ordering::SeqCst) < 3 && tokio::time::Instant::now() < dl {
                     tokio::time::sleep(Duration::from_millis(50)).await;
                 }
                 tokio::time::sleep(Duration::from_millis(100)).await;
-                let n = rig.wire.ccs_after_release[0].load(Ordering::SeqCst);
+                let n = ctr.load(Ordering::SeqCst);
                 let st = state_name(&rig.ep[vi].dtls.get_state());
                 if n >= 3 && st == "Handshaking" {
-                    out.anomalies.push(Anomaly { lo: 0, hi: built.len(), effect: "handshake_derailed".into(), detail: json!({"victim_state": st, "witness": format!("client flight delivered {n} more times after release")}) });
+                    out.anomalies.push(Anomaly { lo: 0, hi: built.len(), effect: "handshake_derailed".into(), detail: json!({"victim_state": st, "witness": format!("the peer's flight was delivered {n} more times after release")}) });
                 } else if st == "Failed" || st == "Closed" {
                     out.anomalies.push(Anomaly { lo: 0, hi: built.len(), effect: "state_changed".into(), detail: json!({"from": "Handshaking", "to": st, "after_release": true}) });
                 } else if st != "Connected" {
                     return Err("handshake incomplete after release, no witness".into());
+                } else if prekey && out.anomalies.is_empty() {
+                    return Err("victim Connected after release but its peer is not (watchdog)".into());
                 }
             }
         }
@@ -1461,6 +1850,8 @@ struct Eval {
 fn rx_key(class: &str, effect: &str, position: &str) -> String {
     if position == "established" {
         format!("rx={class},{effect}")
+    } else if position.starts_with("pre_") {
+        format!("rx={class},{effect},pos=prekey")
     } else {
         format!("rx={class},{effect},pos=handshake")
     }
@@ -1470,6 +1861,7 @@ fn sub_scenario(scn: &Value, lo: usize, hi: usize) -> Value {
     let mut s = scn.clone();
     let inj: Vec<Value> = scn["inj"].as_array().map(|a| a[lo.min(a.len())..hi.min(a.len())].to_vec()).unwrap_or_default();
     s["inj"] = json!(inj);
+    s["inj_base"] = json!(scn["inj_base"].as_u64().unwrap_or(0) + lo as u64);
     s["barrier_every"] = json!(1);
     s
 }
@@ -1491,6 +1883,23 @@ async fn eval_rx(scn: Value, certs: Arc<Certs>) -> (Vec<Eval>, Obs) {
         return (evals, obs);
     }
     let n_inj = scn["inj"].as_array().map(|a| a.len()).unwrap_or(0);
+    // "stopped_delivering" rests on genuine markers that did NOT come out: it only counts if an
+    // identical rig without any injection does deliver its markers and its authentic control record.
+    if out.anomalies.iter().any(|a| a.effect == "stopped_delivering") {
+        let c = run_rx(&sub_scenario(&scn, 0, 0), &certs).await;
+        obs.count("control_runs_without_injection", 1);
+        if c.incon.is_some() || !c.effective || !c.anomalies.is_empty() {
+            evals.push(Eval {
+                scenario: scn,
+                nontrivial: None,
+                verdict: Verdict::Inconclusive(format!(
+                    "genuine markers were not delivered after the injection, but the control rig without injection is not clean either ({})",
+                    c.incon.unwrap_or_else(|| "control record not delivered".into())
+                )),
+            });
+            return (evals, obs);
+        }
+    }
     let mut done_effects: HashSet<String> = HashSet::new();
     for a in out.anomalies.iter() {
         if !done_effects.insert(a.effect.clone()) {
@@ -1498,7 +1907,7 @@ async fn eval_rx(scn: Value, certs: Arc<Certs>) -> (Vec<Eval>, Obs) {
         }
         let (mut lo, mut hi) = (a.lo.min(n_inj), a.hi.min(n_inj));
         let mut single: Option<(Value, RxOut)> = None;
-        if n_inj == 1 && a.effect != "handshake_derailed" {
+        if n_inj == 1 && a.effect != "handshake_derailed" && a.effect != "stopped_delivering" {
             single = Some((scn.clone(), RxOut { anomalies: vec![a.clone()], classes: out.classes.clone(), datagrams: out.datagrams.clone(), ..Default::default() }));
         } else if hi > lo {
             let mut steps = 0;
@@ -1533,10 +1942,12 @@ async fn eval_rx(scn: Value, certs: Arc<Certs>) -> (Vec<Eval>, Obs) {
                 let what = match an.effect.as_str() {
                     "delivered" => format!("an unauthenticated record ({class}) made the victim hand bytes to the upper layer"),
                     "state_changed" => format!("an unauthenticated record ({class}) changed the victim's connection state"),
+                    "receiver_closed" => format!("an unauthenticated record ({class}) ended the victim's application-data receiver (the upper layer is cut off) while the state still reads as before"),
+                    "stopped_delivering" => format!("after an unauthenticated record ({class}) the victim no longer hands genuine authenticated records to the upper layer while the state still reads as before"),
                     _ => format!("an unauthenticated record ({class}) was not discarded: the handshake can no longer complete"),
                 };
                 let witness = json!({
-                    "victim": s["victim"], "position": position, "source": s["source"],
+                    "victim": s["victim"], "position": position, "hold_from": s["hold_from"], "source": s["source"],
                     "injection": s["inj"][0], "class": class, "effect": an.effect, "detail": an.detail,
                     "datagram": o.datagrams.first().map(|d| hex_cap(d, 96)),
                 });
@@ -1547,7 +1958,10 @@ async fn eval_rx(scn: Value, certs: Arc<Certs>) -> (Vec<Eval>, Obs) {
                 evals.push(Eval {
                     scenario: scn.clone(),
                     nontrivial: None,
-                    verdict: Verdict::Inconclusive(format!("anomaly '{}' in a batch did not reproduce with a single injection", a.effect)),
+                    verdict: Verdict::Inconclusive(format!(
+                        "anomaly '{}' in a batch [{}..{}) of {} injections (first: {}; {} / victim {} / source {}) did not reproduce with a single injection",
+                        a.effect, a.lo, a.hi, n_inj, scn["inj"][a.lo.min(n_inj.saturating_sub(1))]["t"], scn["position"], scn["victim"], scn["source"]
+                    )),
                 });
             }
         }
@@ -1733,8 +2147,220 @@ fn gen_scenarios(tier: Tier, seed: u64) -> Vec<Value> {
                        {"t":"replay","rec":1,"pack":"coalesced"},{"t":"reflect","rec":1,"pack":"coalesced"}]}));
         }
     }
+    // H. PRE-KEY positions: the victim has no keys yet, so nothing that claims a protected epoch
+    //    can authenticate; ApplicationData never travels in epoch 0. Not injected here: epoch-0
+    //    Handshake / ChangeCipherSpec / Alert records - before keys exist those are by nature
+    //    unauthenticated and legitimately acted on (the statement starts "once keys are
+    //    negotiated"), so nothing could be demanded about them.
+    //    rustrtc's flights: ClientHello | ServerHello, Certificate, ServerKeyExchange, ServerHelloDone |
+    //    ClientKeyExchange, CCS, Finished | CCS, Finished (no HelloVerifyRequest, no client certificate).
+    let pre_positions: [(&str, &str, &[u8]); 2] = [("pre_server", "server", &[1, 16]), ("pre_client", "client", &[2, 11, 12, 14])];
+    let pre_epochs: &[u16] = if thorough { &[1, 2, 65535] } else { &[1, 2] };
+    for (pos, victim, holds) in pre_positions {
+        for &hold_from in holds {
+            for source in ["peer", "stranger"] {
+                for _rep in 0..(if thorough { 3 } else { 1 }) {
+                    // H1: ApplicationData (and unknown content types) in every epoch
+                    let mut inj: Vec<Value> = vec![];
+                    for &ep in pre_epochs {
+                        for pl in ["sctp", "random"] {
+                            for form in ["raw", "gcm_like"] {
+                                inj.push(json!({"t":"craft","ctype":23,"epoch":ep,"seq":*rng.pick(&seqs),"payload":pl,"form":form,"pack":"single"}));
+                            }
+                        }
+                        inj.push(json!({"t":"craft","ctype":23,"epoch":ep,"seq":*rng.pick(&seqs),"payload":"sctp","form":"raw","pack":"coalesced"}));
+                    }
+                    for pack in ["single", "coalesced"] {
+                        inj.push(json!({"t":"craft","ctype":23,"epoch":0,"seq":*rng.pick(&seqs),"payload":"sctp","form":"raw","pack":pack}));
+                    }
+                    for (ct, pack) in [(24u8, "single"), (25, "single"), (0, "coalesced"), (255, "coalesced")] {
+                        for ep in [0u16, 1] {
+                            inj.push(json!({"t":"craft","ctype":ct,"epoch":ep,"seq":*rng.pick(&seqs),"payload":"sctp","form":"raw","pack":pack}));
+                        }
+                    }
+                    for blen in [0usize, 8, 16, 20, 24] {
+                        inj.push(json!({"t":"len","ctype":23,"epoch":1,"seq":*rng.pick(&seqs),"blen":blen,"form":"raw","pack":"single"}));
+                    }
+                    let n = inj.len();
+                    v.push(json!({"kind":"rx","victim":victim,"position":pos,"hold_from":hold_from,"source":source,
+                        "seed": rng.next_u64() >> 16, "genuine_sizes":[], "victim_sizes":[], "barrier_every":n, "inj":inj}));
+                    // H2: ChangeCipherSpec / Alert / Handshake records that claim a protected epoch
+                    let mut inj: Vec<Value> = vec![];
+                    for ct in [20u8, 21, 22] {
+                        for &ep in pre_epochs {
+                            for pl in payloads {
+                                let forms: &[&str] = if thorough { &["raw", "gcm_like"] } else if ep == 1 { &["raw"] } else { &["gcm_like"] };
+                                for form in forms {
+                                    inj.push(json!({"t":"craft","ctype":ct,"epoch":ep,"seq":*rng.pick(&seqs),"payload":pl,"form":form,"pack":"single"}));
+                                }
+                            }
+                        }
+                        inj.push(json!({"t":"craft","ctype":ct,"epoch":1,"seq":*rng.pick(&seqs),"payload":"close_notify","form":"raw","pack":"coalesced"}));
+                    }
+                    for msg in ["finished", "client_hello", "cke", "shd", "hvr", "cert_other", "cert_empty", "ske_bad"] {
+                        for m in 0..(if thorough { 6u16 } else { 3 }) {
+                            inj.push(json!({"t":"hs","msg":msg,"mseq":m,"epoch":1,"seq":*rng.pick(&seqs),"pack":"single"}));
+                        }
+                    }
+                    let n = inj.len();
+                    v.push(json!({"kind":"rx","victim":victim,"position":pos,"hold_from":hold_from,"source":source,
+                        "seed": rng.next_u64() >> 16, "genuine_sizes":[], "victim_sizes":[], "barrier_every":n, "inj":inj}));
+                }
+            }
+        }
+    }
+    // I. exact body lengths around the explicit-nonce (8) and tag (16) boundaries, protected epochs
+    let mut long_lens: Vec<usize> = (41..=64).collect();
+    rng.shuffle(&mut long_lens);
+    long_lens.truncate(8);
+    let all_lens: Vec<usize> = (0..=40).chain(long_lens.iter().copied()).collect();
+    let edge_lens = [0usize, 7, 8, 15, 16, 19, 23, 24, 25, 32, 40];
+    for victim in ["client", "server"] {
+        for source in ["peer", "stranger"] {
+            if thorough {
+                for ct in [20u8, 21, 22, 23, 24, 25, 0, 255] {
+                    for ep in [1u16, 2, 65535] {
+                        for form in ["raw", "gcm_like"] {
+                            for pack in ["single", "coalesced"] {
+                                if (ct == 0 || ct == 255) && pack == "single" {
+                                    continue; // not routed to DTLS by the first-byte demultiplexer
+                                }
+                                let inj: Vec<Value> = all_lens
+                                    .iter()
+                                    .map(|l| json!({"t":"len","ctype":ct,"epoch":ep,"seq":*rng.pick(&seqs),"blen":l,"form":form,"pack":pack}))
+                                    .collect();
+                                v.push(json!({"kind":"rx","victim":victim,"position":"established","source":source,
+                                    "seed": rng.next_u64() >> 16, "genuine_sizes":[], "victim_sizes":[], "barrier_every":7, "inj":inj}));
+                            }
+                        }
+                    }
+                }
+            } else {
+                // I1: ApplicationData, epoch 1 (the current one): every length 0..=40, both forms
+                let mut inj: Vec<Value> = (0..=40usize)
+                    .map(|l| json!({"t":"len","ctype":23,"epoch":1,"seq":*rng.pick(&seqs),"blen":l,"form":"raw","pack":"single"}))
+                    .collect();
+                inj.extend((8..=40usize).map(|l| json!({"t":"len","ctype":23,"epoch":1,"seq":*rng.pick(&seqs),"blen":l,"form":"gcm_like","pack":"single"})));
+                inj.extend(long_lens.iter().map(|l| json!({"t":"len","ctype":23,"epoch":1,"seq":*rng.pick(&seqs),"blen":l,"form":"raw","pack":"single"})));
+                v.push(json!({"kind":"rx","victim":victim,"position":"established","source":source,
+                    "seed": rng.next_u64() >> 16, "genuine_sizes":[], "victim_sizes":[], "barrier_every":4, "inj":inj}));
+                // I2: the other content types (25 = unknown) and epoch 2 at the boundary lengths
+                let mut inj: Vec<Value> = vec![];
+                let mut k = 0usize;
+                let both: &[u16] = &[1, 2];
+                let two: &[u16] = &[2];
+                for (ct, eps) in [(20u8, both), (21, both), (22, both), (25, both), (23, two)] {
+                    for &ep in eps {
+                        for l in edge_lens {
+                            k += 1;
+                            inj.push(json!({"t":"len","ctype":ct,"epoch":ep,"seq":*rng.pick(&seqs),"blen":l,"form": if k % 2 == 0 { "raw" } else { "gcm_like" },"pack":"single"}));
+                        }
+                    }
+                }
+                v.push(json!({"kind":"rx","victim":victim,"position":"established","source":source,
+                    "seed": rng.next_u64() >> 16, "genuine_sizes":[], "victim_sizes":[], "barrier_every":8, "inj":inj}));
+                // I3: coalesced - the short record is the SECOND record of the datagram
+                let mut inj: Vec<Value> = vec![];
+                for ct in [23u8, 21, 20, 22, 255, 0] {
+                    for ep in [1u16, 2] {
+                        for l in [8usize, 16, 19, 23, 24] {
+                            inj.push(json!({"t":"len","ctype":ct,"epoch":ep,"seq":*rng.pick(&seqs),"blen":l,"form":"raw","pack":"coalesced"}));
+                        }
+                    }
+                }
+                v.push(json!({"kind":"rx","victim":victim,"position":"established","source":source,
+                    "seed": rng.next_u64() >> 16, "genuine_sizes":[], "victim_sizes":[], "barrier_every":6, "inj":inj}));
+            }
+        }
+    }
+    for (pos, victim) in [("window_client", "client"), ("window_server", "server")] {
+        for source in ["peer", "stranger"] {
+            let cts: &[u8] = if thorough { &[20, 21, 22, 23, 24, 25] } else { &[23, 21, 22, 20] };
+            let mut groups: Vec<Vec<Value>> = vec![];
+            let mut cur: Vec<Value> = vec![];
+            for &ct in cts {
+                for ep in [1u16, 2] {
+                    let forms: &[&str] = if thorough { &["raw", "gcm_like"] } else { &["raw"] };
+                    for form in forms {
+                        let lens: Vec<usize> = if thorough { all_lens.clone() } else { vec![0, 8, 15, 16, 19, 23, 24, 40] };
+                        for l in lens {
+                            cur.push(json!({"t":"len","ctype":ct,"epoch":ep,"seq":*rng.pick(&seqs),"blen":l,"form":form,"pack":"single"}));
+                        }
+                        if thorough {
+                            groups.push(std::mem::take(&mut cur));
+                        }
+                    }
+                }
+            }
+            for l in [8usize, 16, 19, 23, 24] {
+                for ct in [23u8, 21] {
+                    cur.push(json!({"t":"len","ctype":ct,"epoch":1,"seq":*rng.pick(&seqs),"blen":l,"form":"raw","pack":"coalesced"}));
+                }
+            }
+            groups.push(cur);
+            for inj in groups {
+                v.push(json!({"kind":"rx","victim":victim,"position":pos,"source":source,
+                    "seed": rng.next_u64() >> 16, "genuine_sizes":[], "victim_sizes":[], "barrier_every":8, "inj":inj}));
+            }
+        }
+    }
+    // J. the same kinds of injection interleaved with genuine traffic (a genuine payload follows
+    //    every injected datagram)
+    for victim in ["client", "server"] {
+        for source in ["peer", "stranger"] {
+            for _rep in 0..(if thorough { 6 } else { 1 }) {
+                let mut inj: Vec<Value> = vec![];
+                for ct in [21u8, 23, 22, 20] {
+                    for ep in [0u16, 1] {
+                        let pl = *rng.pick(&payloads);
+                        inj.push(json!({"t":"craft","ctype":ct,"epoch":ep,"seq":*rng.pick(&seqs),"payload":pl,"form": if ep == 0 { "raw" } else { "gcm_like" },"pack":"single"}));
+                    }
+                }
+                for l in 14..=26usize {
+                    inj.push(json!({"t":"len","ctype":23,"epoch":1,"seq":*rng.pick(&seqs),"blen":l,"form":"raw","pack": if l % 2 == 0 { "single" } else { "coalesced" }}));
+                }
+                let rec_len = 13 + 8 + 100 + 16;
+                for _ in 0..24 {
+                    inj.push(json!({"t":"flip","rec":0,"bit":rng.usize_below(rec_len * 8)}));
+                }
+                for _ in 0..6 {
+                    inj.push(json!({"t":"trunc","rec":0,"len":rng.usize_below(rec_len),"fix":rng.bool()}));
+                }
+                for m in ["random_key", "own_key", "aad_len"] {
+                    inj.push(json!({"t":"rekey","rec":0,"mode":m}));
+                }
+                inj.push(json!({"t":"replay","rec":0}));
+                rng.shuffle(&mut inj);
+                v.push(json!({"kind":"rx","victim":victim,"position":"established","source":source,"interleave":true,
+                    "seed": rng.next_u64() >> 16, "genuine_sizes":[100], "victim_sizes":[], "barrier_every":5, "inj":inj}));
+            }
+        }
+    }
+    // K. the unauthenticated record rides in the same datagram BEHIND a record that authenticates
+    for victim in ["client", "server"] {
+        for source in ["peer", "stranger"] {
+            for _rep in 0..(if thorough { 4 } else { 1 }) {
+                let mut inj: Vec<Value> = vec![];
+                for ct in [23u8, 21, 22, 20] {
+                    for ep in [0u16, 1, 2] {
+                        for pl in ["sctp", "close_notify"] {
+                            inj.push(json!({"t":"craft","ctype":ct,"epoch":ep,"seq":*rng.pick(&seqs),"payload":pl,"form": if ep == 2 { "gcm_like" } else { "raw" },"pack":"after_authentic"}));
+                        }
+                    }
+                }
+                for l in [0usize, 8, 15, 16, 19, 23, 24, 25] {
+                    inj.push(json!({"t":"len","ctype":23,"epoch":1,"seq":*rng.pick(&seqs),"blen":l,"form":"raw","pack":"after_authentic"}));
+                }
+                for msg in ["finished", "client_hello", "shd"] {
+                    inj.push(json!({"t":"hs","msg":msg,"mseq":rng.below(8),"epoch":0,"seq":*rng.pick(&seqs),"pack":"after_authentic"}));
+                }
+                v.push(json!({"kind":"rx","victim":victim,"position":"established","source":source,
+                    "seed": rng.next_u64() >> 16, "genuine_sizes":[], "victim_sizes":[], "barrier_every":3, "inj":inj}));
+            }
+        }
+    }
     // G. send side
-    let boundary = [0usize, 1, 15, 16, 17, 1199, 1200, 1201, 2399, 2400, 2401, 3600, 3601, 4999, 5000];
+    let boundary =[0usize, 1, 15, 16, 17, 1199, 1200, 1201, 2399, 2400, 2401, 3600, 3601, 4999, 5000];
     let rounds = if thorough { 20 } else { 2 };
     for _round in 0..rounds {
         for senders in ["client", "server", "both"] {
@@ -1779,7 +2405,7 @@ pub fn run(args: &Args) -> i32 {
     let mut report = Report::new(
         args,
         "exploration",
-        "rx scenario: >=1 datagram injected, the closing genuine marker came out of the victim (barrier) and a harness-sealed authentic control record from the same source was delivered (or, in handshake-window positions, the withheld flight was released and the handshake completed / a violation was established); tx scenario: >=1 ApplicationData record captured on the wire and opened under the negotiated write key",
+        "rx scenario: >=1 datagram injected, the closing genuine marker came out of the victim (barrier) and a harness-sealed authentic control record from the same source was delivered (or, in handshake-window and pre-key positions, every injected datagram was counted by the victim's IceConn before the release where no marker is possible, the withheld flight was released, the handshake completed and the closing marker came out / a violation was established); tx scenario: >=1 ApplicationData record captured on the wire and opened under the negotiated write key",
     );
     report.assume("loopback UDP keeps per-socket FIFO order; the harness socket pump stands in for the ICE agent's read loop exactly as src/transports/dtls/tests.rs does");
     report.assume("replayed genuine records authenticate, so their acceptance is counted as an observation, not a violation");
@@ -1862,7 +2488,7 @@ pub fn run(args: &Args) -> i32 {
             }
         }
     }
-    let panics = take_panics();
+    let panics = panics_so_far();
     if !panics.is_empty() {
         report.count("panics_in_any_task(observation)", panics.len() as u64);
         for p in panics.iter().take(5) {
